@@ -48,7 +48,7 @@ ASSUMPTIONS = [
 ]
 PROFILE = {
     "quick": dict(examples=6000, shards=16, budget_s=90),
-    "thorough": dict(examples=60000, shards=16, budget_s=900),
+    "thorough": dict(examples=120000, shards=16, budget_s=900),
 }
 
 FLOAT_POOL = [0.0, 1.0, 2.0, 3.0, -1.0, 2.5, 10.0, 20.0, 30.0, 99.0, 0.5]
